@@ -31,7 +31,7 @@ VARIABLES prog,    \* Seq of lines; a line is [k: kind, items: Seq(Item), st: st
           scope    \* the engine's scope chain as the implementation keeps it: Seq of [name, multi]
 nvars == <<prog, phase, nfun, body, open, elseOK, ndecl, viol, scope>>
 
-NoViol == [op |-> "none", line |-> 0, code |-> ""]
+NoViol == [op |-> "none", line |-> 0, code |-> {}, site |-> [k |-> "", lit |-> "", prev |-> "", next |-> "", first |-> "", tabs |-> 0]]
 TAB1 == [s |-> "T", x |-> "\t", w |-> 0, n |-> 0]
 Tabs(n) == [i \in 1..n |-> TAB1]
 Line(k, st, items) == [k |-> k, st |-> st, items |-> items]
@@ -353,7 +353,7 @@ Spec == Init /\ [][Next]_nvars
 IndentIsDepth == phase = "body" => Indent(scope) = Depth
 (* C07: the nesting depth is back at file level after each function *)
 DepthZeroAtTop == phase \in {"toplevel", "done"} => scope = << [name |-> "GlobalScope", multi |-> FALSE] >>
-WidthOK == \A i \in DOMAIN prog : LineWidth(prog[i]) <= 80
+WidthOK == phase # "violated" => \A i \in DOMAIN prog : LineWidth(prog[i]) <= 80
 BodyOK == body <= 25 /\ ndecl <= 5 /\ nfun <= 5
 OneViolation == viol.op = "none" \/ (viol.line \in 1..Len(prog))
 Done == phase = "done"
